@@ -132,6 +132,9 @@ func Load(repo string) (*Prog, error) {
 		}
 	}
 	sort.SliceStable(p.Funcs, func(i, j int) bool { return FuncName(p.Funcs[i]) < FuncName(p.Funcs[j]) })
+	for _, f := range p.Funcs {
+		forwardSpills(f)
+	}
 	ResolveRoles(p)
 	return p, nil
 }
@@ -392,4 +395,108 @@ func pruneConstIfs(info *types.Info, files []*ast.File) {
 			return true
 		})
 	}
+}
+
+
+// forwardSpills: go/ssa keeps every variable that a closure mentions in a memory cell, even when nobody ever assigns it
+// again - a parameter captured by a deferred func, a local read inside a callback. For a cell that is stored exactly once,
+// in its own function, by a store that dominates every load of that function, and that no closure writes, each load in the
+// function is replaced by the stored value (the loads inside closures stay loads of the captured variable and are mapped
+// to the binding where needed). The rules then see the same operands whether or not a closure happens to mention a
+// variable.
+func forwardSpills(f *ssa.Function) {
+	for _, b := range f.Blocks {
+		for _, ins := range b.Instrs {
+			al, ok := ins.(*ssa.Alloc)
+			if !ok || al.Referrers() == nil {
+				continue
+			}
+			var store *ssa.Store
+			var loads []*ssa.UnOp
+			okShape := true
+			for _, r := range *al.Referrers() {
+				switch x := r.(type) {
+				case *ssa.Store:
+					if x.Addr != ssa.Value(al) || store != nil {
+						okShape = false
+					}
+					store = x
+				case *ssa.UnOp:
+					if x.Op == token.MUL && x.X == ssa.Value(al) {
+						loads = append(loads, x)
+					} else {
+						okShape = false
+					}
+				case *ssa.MakeClosure:
+					for i, bnd := range x.Bindings {
+						if bnd == ssa.Value(al) && !freeVarReadOnly(x.Fn.(*ssa.Function), i, 0) {
+							okShape = false
+						}
+					}
+				case *ssa.DebugRef:
+				default:
+					okShape = false
+				}
+			}
+			if !okShape || store == nil || len(loads) == 0 {
+				continue
+			}
+			for _, ld := range loads {
+				if !InstrDominates(store, ld) {
+					continue
+				}
+				replaceValue(ld, store.Val)
+			}
+		}
+	}
+}
+
+// freeVarReadOnly: closure fn only loads its i-th free variable (or hands it to nested closures that only load it).
+func freeVarReadOnly(fn *ssa.Function, i int, depth int) bool {
+	if i >= len(fn.FreeVars) || depth > 4 {
+		return false
+	}
+	fv := fn.FreeVars[i]
+	if fv.Referrers() == nil {
+		return true
+	}
+	for _, r := range *fv.Referrers() {
+		switch x := r.(type) {
+		case *ssa.UnOp:
+			if x.Op != token.MUL {
+				return false
+			}
+		case *ssa.MakeClosure:
+			for k, bnd := range x.Bindings {
+				if bnd == ssa.Value(fv) && !freeVarReadOnly(x.Fn.(*ssa.Function), k, depth+1) {
+					return false
+				}
+			}
+		case *ssa.DebugRef:
+		default:
+			return false
+		}
+	}
+	return true
+}
+
+// replaceValue makes every user of old use new instead (operands and referrer lists).
+func replaceValue(old ssa.Value, new ssa.Value) {
+	refs := old.Referrers()
+	if refs == nil {
+		return
+	}
+	users := append([]ssa.Instruction{}, (*refs)...)
+	for _, u := range users {
+		var rands []*ssa.Value
+		for _, op := range u.Operands(rands) {
+			if op != nil && *op == old {
+				*op = new
+			}
+		}
+		if nr := new.Referrers(); nr != nil {
+			*nr = append(*nr, u)
+		}
+	}
+	*refs = nil
 }
